@@ -73,12 +73,16 @@ def run_case(case, ctx):
     if not model:
         # (the property speaks of non-empty tries; on an empty one - its root an equal but not
         # identical copy of the blank hash - the helpers must at least agree that nothing is there)
+        blank = bytes(bytearray(t.root_hash))      # equal to the blank hash, not the same object
         for k in (b"\x01", b"\x12\x34"):
-            if cut(check_if_branch_exist, db, t.root_hash, k):
+            if cut(check_if_branch_exist, db, blank, k):
                 raise Violation("bin-branch-exist", "check_if_branch_exist(%s) is true on an empty trie" % hx(k))
-            if cut(t.get, k) is not None:
+            br0 = cut(get_branch, db, blank, k, expect=(InvalidKeyError,))
+            if not isinstance(br0, Raised) and len(br0):
+                raise Violation("bin-branch-foreign-node", "get_branch on an empty trie yields nodes")
+            if cut(BinaryTrie(db, blank).get, k) is not None:
                 raise Violation("bin-lookup", "get on an empty trie returned a value")
-        if list(cut(get_trie_nodes, db, t.root_hash)):
+        if list(cut(get_trie_nodes, db, blank)):
             raise Violation("bin-trie-nodes", "get_trie_nodes of an empty trie yields nodes")
         ctx.count("empty_skipped")
         return
